@@ -444,7 +444,8 @@ Verdicts(f, f1, f2, i1, i2) ==
    tmplmono |-> (AcceptedInTemplate(i1) => AcceptedInTemplate(i2)),
    typemono |-> (Accepted(i1) => Loosens(i1.ty, i2.ty)),
    strong   |-> ((f # "fj") => (i2.errs \subseteq i1.errs \/ ~(i1.errs \subseteq i2.errs))),
-   devonly  |-> ((Accepted(f1) /\ ~Accepted(f2)) => \E x \in f2.errs : x.c = "filter-noobj")]
+   devonly  |-> ((Accepted(f1) /\ ~Accepted(f2)) => \E x \in f2.errs : x.c = "filter-noobj"),
+   asread   |-> (Accepted(f1) => Accepted(f2))]
 
 Vector(i, ops) ==
   LET pr == PairSeq[i]
@@ -510,6 +511,9 @@ TmplMono == ok.tmplmono
 TypeMono == ok.typemono
 StrongMono == ok.strong
 DevOnlyFilter == ok.devonly
+\* NOT expected to hold: any-monotonicity of the model of the code as read (used as a self-test of the E layer:
+\* TLC must find the counterexample `matrix.*` that the named deviation FilterAnyProp stands for)
+AnyMonoAsRead == ok.asread
 \* rendering and token arithmetic agree with the depth bound
 Bounded == Depth(e1) <= 6 /\ NT(e1) <= 40
 =============================================================================
